@@ -2099,10 +2099,12 @@ def r10_in_place_write_only_on_unshared(ctx, rid):
             v = assigned_value(d, name.id)
             if v is None:
                 out.append(("other", d, None))
-            elif isinstance(v, ast.Call) and call_name(v) in COPY:
-                out.append(("copy", d, v))
             elif isinstance(v, ast.Call) and call_name(v) == "get_node_template":
                 out.append(("lookup", d, v))
+            elif isinstance(v, ast.Call):
+                # an object made by a call for this node in this iteration (deepcopy, a constructor, a derived template ...): whether
+                # it is deep enough not to share containers with the original is C17-R8's question, not this rule's
+                out.append(("copy", d, v))
             elif isinstance(v, ast.Subscript):
                 base = v
                 while isinstance(base, ast.Subscript):
@@ -2133,6 +2135,22 @@ def r10_in_place_write_only_on_unshared(ctx, rid):
                         out.append((t.comparators[0].id, t.left))
         return out
     writes = [c for c in ordered(walk_shallow(f.node)) if isinstance(c, ast.Call) and is_template_write(c)]
+    if not writes:
+        # copy-on-write design: the written object is the RESULT of an accessor call (`self._own_template(n).update_var(...)`), the
+        # accessor decides between the circuit's own object and a fresh copy and keeps an ownership record.  That protocol
+        # (accessor, ownership attribute, record emptied wherever the held templates are passed to a newly constructed circuit) is
+        # modelled by C17-R8; the same decision is a necessary condition here, so it is taken over under this rule's id.
+        via_call = [c for c in ordered(walk_shallow(f.node)) if isinstance(c, ast.Call) and isinstance(c.func, ast.Attribute)
+                    and isinstance(c.func.value, ast.Call)]
+        mutating = []
+        for c in via_call:
+            ts, how = ctx.cg.resolve_call(f, c)
+            ts = [t for t in ts if t.cls is not None and t.cls.name != CLS]
+            if ts and any(any(pp == t.self_name for pp, _ in eff.mutates(t, None)) for t in ts):
+                mutating.append(c)
+        if mutating:
+            from .c17 import r8_override_written_into_unshared_copy
+            return r8_override_written_into_unshared_copy(ctx, rid)
     ctx.require(writes, f"{rid}: no in-place update of a node template found in update_var (anchor vanished)")
     licence_regs = set()
     seen: Dict[str, int] = {}
@@ -2145,7 +2163,7 @@ def r10_in_place_write_only_on_unshared(ctx, rid):
         if not ks or any(k == "other" for k, _, _ in ks):
             raise AnalysisError(f"{rid}: cannot tell where the template `{x.id}` written by `{txt}` comes from (unrecognised form)")
         if all(k == "copy" for k, _, _ in ks):
-            ctx.ok(rid, f0, c, f"`{x.id}` is a copy made for this node before it is written", label=label)
+            ctx.ok(rid, f0, c, f"`{x.id}` is an object made for this node (copy / newly constructed) before it is written", label=label)
             continue
         lic = [r for r, key in licences(c) if any(isinstance(n, ast.Name) and n.id == x.id for n in ast.walk(key))]
         if not lic:
